@@ -33,12 +33,26 @@ def run_once(run, prefix):
     return obs, ch.points
 
 
-def explore(run, bound=None, max_exec=None, on_exec=None):
+def roots_for_part(run, part, nparts):
+    """Partition an exploration over several workers by the position of the FIRST deviation:
+    returns the list of root prefixes whose first non-default answer sits at a choice point i with
+    i % nparts == part (part 0 additionally owns the all-default execution, prefix [])."""
+    obs, points = run_once(run, [])
+    roots = [[]] if part == 0 else []
+    for i, (n, _) in enumerate(points):
+        if i % nparts == part:
+            for alt in range(1, n):
+                roots.append([0] * i + [alt])
+    return roots
+
+
+def explore(run, bound=None, max_exec=None, on_exec=None, roots=None):
     """Enumerate executions.  Returns dict(executions, points_max, points_total, capped,
     distinct_choice_vectors).  on_exec(choices, obs, points) is called for every execution;
     if it returns a truthy value exploration stops early and that value is returned under
     'stopped'."""
-    stack = [[]]
+    stack = [[]] if roots is None else [list(r) for r in roots][::-1]
+    only_roots = roots is not None
     nexec = 0
     pmax = 0
     ptot = 0
@@ -56,6 +70,8 @@ def explore(run, bound=None, max_exec=None, on_exec=None):
             if stopped:
                 break
         dev = sum(1 for c in choices[:len(prefix)] if c != 0)
+        if only_roots and len(prefix) == 0:
+            continue            # the all-default execution of a partitioned exploration: its children are the other roots
         if bound is None or dev < bound:
             # branch on every later point (all of them took the default answer 0)
             for i in range(len(points) - 1, len(prefix) - 1, -1):
